@@ -6,7 +6,9 @@ from . import progcheck as P, progrun
 
 PROP = "C06"
 WIDTH = {"db": 1, "dw": 2, "dd": 4, "dq": 8}
-STRINGS = ["", "a", "ab", "abc", "Hello, World", "é", "€uro", "a;b", "//x", "/* */", "tab\there", "'", "x" * 17]
+STRINGS = ["", "a", "ab", "abc", "Hello, World", "é", "€uro", "a;b", "//x", "/* */", "tab\there", "'", "x" * 17,
+           # no escapes in strings: a backslash is a character like any other, also as the last one
+           "C:\\", "ab\\", "\\", "a\\b", "\\n", "\\\\", "\\0", "%", "@0", "#", "$", "`", "a,b", " ", "  x ", ":", "=", "(", "r16", "\x7f"]
 
 
 def lit(v, rng):
@@ -86,7 +88,7 @@ def gen_case(rng):
                     out += (v % (256 ** w)).to_bytes(w, "little")
                 else:
                     ok = False
-        lines.append(".%s %s" % (d, rng.choice([", ", ",", " ,"]).join(ops)))
+        lines.append(".%s %s%s" % (d, rng.choice([", ", ",", " ,"]).join(ops), rng.choice(["", "", "", ' ; "q"', " ; it's", ' // "', ' /* " */', ';"'])))
         if seg == "c":
             if d == "db" and len(out) % 2 == 1:
                 out += b"\0"
